@@ -108,6 +108,25 @@ def audits(ctx, prog, only=None):
             return None if strip(p.term(p.payload())) == ('field', cv[0].ret, 0, 'Ok') else 'the value handed back is not what the conversion produced'
         A.require(nm, dpaths, r_de, replay={'scenario': 'did_syntax', 'cex': {'only': '[serde]'}})
 
+    # ---------------------------------------------------------------- did:jwk text goes through the plain-DID parser as a whole
+    fj = prog.find(r'did_jwk::<impl at [^>]*>::from_str$')
+    if len(fj) == 1 and A.wants('DIDJwk::from_str/'):
+        jpaths, jex = A.paths(fj[0], inline=r'did_jwk::<impl at [^>]*>::from_str::\{closure')
+
+        def r_dj(p):
+            if p.kind != 'return':
+                return 'panic ' + p.msg
+            t = strip(p.term())
+            if isinstance(p.val, VAgg) and p.val.variant == 'Err':
+                return None
+            tf = [c for c in p.calls if re.search(r'<DIDJwk as TryFrom<CoreDID>>::try_from$', c.name)]
+            ps = [c for c in p.calls if re.search(r'<impl str>::parse$|<CoreDID as (\w+::)*FromStr>::from_str$|CoreDID::parse$', c.name) and strip(c.args[0]) == ('leaf', 's')]
+            if len(tf) != 1 or len(ps) != 1 or strip(tf[0].args[0]) != ('field', ps[0].ret, 0, 'Ok'):
+                return 'the did:jwk is not built from the whole text parsed as a plain DID (URL parts would be dropped silently)'
+            extra = [c for c in p.calls if c not in tf + ps and not c.inlined]
+            return ('something besides parse + try_from: %s' % extra[0].name.split('::')[-1]) if extra else None
+        A.require('DIDJwk::from_str/whole-text-as-a-plain-DID-then-try_from', jpaths, r_dj, replay={'scenario': 'did_syntax', 'cex': {'only': '[jwk]'}})
+
     # ---------------------------------------------------------------- constructors of the plain DID type validate
     def validated(p, base_pred):
         """Ok path: returned CoreDID wraps a base that passed check_validity"""
